@@ -19,7 +19,7 @@ def run(ck):
                "follow-up reads on the same node; distinct = case description + read ranges; non-trivial = some fault, "
                "bad share or forged share present")
     i = 0
-    while not ck.out_of_time():
+    while ck.more(min_cases=120):
         i += 1
         if not ck.mine(i):
             continue
